@@ -855,6 +855,48 @@ func runFacts(repo, outdir string) error {
 			ok := il >= 0 && ir > il && (strings.Contains(rsrc[il:ir], "atomic.LoadUint32(&w.closed)") || strings.Contains(rsrc[il:ir], "w.checkClosed()")) && strings.Contains(rsrc[il:ir], "return")
 			lcc.raw(fmt.Sprintf("/-- `runRotate` re-checks the closed flag between taking the write lock and rotating, and returns when closed -/\ndef rotationRechecksClosed : Bool := %v\n\n", ok))
 		}
+		{
+			// every reference taken with acquireState is given back exactly once: each call site is a short variable
+			// declaration `x, rel := w.acquireState()` (fresh variables, not a re-assignment of ones whose release is
+			// already deferred) directly followed by `defer rel()` — the discipline Model.Conc's readers and the
+			// refcount theorems (refcount_exact, no_double_close) assume of every caller
+			paired := true
+			sites := 0
+			for _, f := range walP.files {
+				ast.Inspect(f, func(n ast.Node) bool {
+					bl, ok := n.(*ast.BlockStmt)
+					if !ok {
+						return true
+					}
+					for i, st := range bl.List {
+						as, ok := st.(*ast.AssignStmt)
+						if !ok || len(as.Rhs) != 1 || !strings.HasSuffix(walP.src(as.Rhs[0]), ".acquireState()") {
+							continue
+						}
+						sites++
+						good := as.Tok == token.DEFINE && len(as.Lhs) == 2
+						if good {
+							rel, ok := as.Lhs[1].(*ast.Ident)
+							good = ok && i+1 < len(bl.List)
+							if good {
+								ds, ok := bl.List[i+1].(*ast.DeferStmt)
+								good = ok && walP.src(ds.Call) == rel.Name+"()"
+							}
+						}
+						if !good {
+							paired = false
+						}
+					}
+					return true
+				})
+			}
+			// acquireState calls that are not statements of a block of this shape (e.g. inside an expression) would be missed above
+			total := 0
+			for _, f := range walP.files {
+				total += strings.Count(walP.src(f), ".acquireState()")
+			}
+			lcc.raw(fmt.Sprintf("/-- every `acquireState()` call site declares fresh variables and defers the release in the next statement (%d sites) -/\ndef everyAcquireHasDeferredRelease : Bool := %v\n\n", sites, paired && sites > 0 && sites == total))
+		}
 		if err := lcc.finish(outdir); err != nil {
 			return err
 		}
